@@ -187,4 +187,4 @@ def run(report, findings):
                 "offset (column, constants, call) at training and on a new frame; prop/p/proportion validation with 0/1/half/all invalid rows and "
                 "new-frame trials; I(e) and {e}; synonym pairs; non-trivial = the pointwise meaning holds",
         "samples": [r[0] for r in res[:3]] + [r[0] for r in res[40:43]]})
-    report.assumptions = ["prediction-time behaviour of binary() is a recorded C06 finding (C06-binary-reestimated) and is not re-judged here"]
+    report.assumptions = list(dict.fromkeys(list(report.assumptions) + ["prediction-time behaviour of binary() is a recorded C06 finding (C06-binary-reestimated) and is not re-judged here"]))
